@@ -649,6 +649,9 @@ func (r *UnitResult) QueryFor(ob *Obligation, withModel bool) string {
 		if e.Kind == EvAssume && offPath(e.Term.S, onPath) {
 			continue
 		}
+		if e.Scope != nil && e.Scope != ob {
+			continue
+		}
 		b.WriteString(eventText(e))
 		b.WriteString("\n")
 	}
@@ -783,10 +786,16 @@ func (r *UnitResult) IncrementalScript(quickMs int, modular int) (string, []*Obl
 		if modular > 0 && i >= r.entryEnd && i < modular && (e.Kind == EvOblig || (e.Kind == EvAssume && !e.Structural)) {
 			continue
 		}
+		if e.Scope != nil {
+			continue
+		}
 		if e.Kind == EvOblig {
 			ob := e.Ob
 			if ob.Result == "unsat" && ob.Backend == "syntactic" {
 				continue
+			}
+			if ob.Kind == "check" {
+				continue // standalone only (its scoped facts are not part of this script)
 			}
 			if ob.ModularFrom != modular {
 				// checked in another script; in this one it is at most an assumption
@@ -919,7 +928,7 @@ func (g *Gen) contractQuantifies(ct *Contract) bool {
 
 func terminalKind(k string) bool {
 	switch k {
-	case "ensures", "frame":
+	case "ensures", "frame", "check":
 		return true
 	}
 	return strings.HasPrefix(k, "inv-pres")
